@@ -355,7 +355,7 @@ func genRT(pr rtProfile) func(r *rand.Rand, w *W) [][]string {
 				pool = append(pool, p)
 				stems = append(stems, p)
 			}
-			switch r.Intn(7) {
+			switch r.Intn(9) {
 			case 0: // a parameter route that is a prefix of another one, emptied by explicit method lists, then its twin
 				par := pick(r, []string{"{id}", "{id:digit}", "{id:\\d+}", "{id:[a-z]+}"})
 				if par == "{id:digit}" && len(ics) == 0 {
@@ -418,6 +418,38 @@ func genRT(pr rtProfile) func(r *rand.Rand, w *W) [][]string {
 				addH(base+"/{id}/a/{x}/r", "GET")
 				ops = append(ops, []string{"serve", "GET", base + "/5/a/7/r"}, []string{"serve", "GET", base + "/5/a/7/p"})
 				w.Count("shape-dup-name-ignored")
+			case 6: // kinds that compete at one position with every combination of the two sort adjustments (leaf, end point):
+				// a parameter node with children registered before an end-point leaf of the next higher kind
+				hi, lo := "{path:[a-z0-9.]+}", "{name}" // no suitable interceptor configured: regexp against named
+				for i := 0; i < len(ics); i += 2 {
+					if ics[i] == "any" || ics[i] == "all" {
+						hi, lo = "{path:"+ics[i]+"}", "{name:[a-z0-9]+}"
+					}
+				}
+				addH(base+"/files/"+lo+".htm", "GET")
+				addH(base+"/files/"+lo+".html", "GET")
+				addH(base+"/files/"+hi, "GET")
+				addH(base+"/files/{rest}", "POST")
+				ops = append(ops, []string{"serve", "GET", base + "/files/index.html"}, []string{"serve", "GET", base + "/files/12.html"},
+					[]string{"serve", "GET", base + "/files/a.htm"}, []string{"serve", "POST", base + "/files/a.htm"})
+				w.Count("shape-kind-order-adjustments")
+			case 7: // an end-point parameter label that stays a sibling of its own extension ("{id:\\d+}" next to
+				// "{id:\\d+}/posts": never merged, nothing may be cut right after '}'), then a removal by prefix
+				par := pick(r, []string{"{id:\\d+}", "{id:[0-9]+}", "{id}"})
+				addH(base+"/users/"+par, "GET")
+				addH(base+"/users/"+par+"/posts", "GET")
+				if r.Intn(2) == 0 {
+					addH(base+"/users/"+par+"/posts/{n}", "GET")
+				}
+				observe()
+				if pr.facades {
+					id := "c" + itoa(len(ops))
+					ops = append(ops, append([]string{"prefix", id, "r", base + "/users/" + par + pick(r, []string{"/", "/posts", "/p"})}, list()...), []string{"clean", id})
+				} else {
+					ops = append(ops, append([]string{"remove", "r", base + "/users/" + par + "/posts"}, list()...))
+				}
+				ops = append(ops, []string{"serve", "GET", base + "/users/5/posts"}, []string{"serve", "GET", base + "/users/5"})
+				w.Count("shape-endpoint-param-and-extension")
 			default: // '-' parameters with alternations
 				addH(base+"/{-ver:v1|v2}/users", "GET")
 				addH(base+"/{kind:a|ab}/x", "GET")
